@@ -20,6 +20,7 @@ import NanoVerif.Model.ColrSvg
 import NanoVerif.Model.Shape
 import NanoVerif.Model.ConfigFlow
 import NanoVerif.Model.ReuseSeq
+import NanoVerif.Model.DisjointSet
 /-
 Correspondence driver.  One JSON object per input line: {"op": ..., ...}; one JSON object per
 output line.  Run: `lake env lean --run Driver.lean < ops.jsonl`.
@@ -295,6 +296,14 @@ def dispatch (op : String) (j : Json) : Except String Json := do
         (st', if st'.next > st.next then creator ++ [i] else creator, ps ++ [p])
       let (st, _, ps) := shapes.zipIdx.foldl step (⟨[], 0⟩, [], [])
       return obj [("paints", Json.arr (ps.map jSPaint).toArray), ("next", jI (Int.ofNat st.next))]
+  | "disjoint-set" =>
+      let ops ← (← getArr (← field j "ops")).mapM (fun r => do
+        match (← getArr r) with
+        | [k, x] => if (← getStr k) = "make" then pure (DOp.make (← getNat x)) else .error "dset op"
+        | [k, x, y] => if (← getStr k) = "union" then pure (DOp.union (← getNat x) (← getNat y)) else .error "dset op"
+        | _ => .error "dset op")
+      let d := DSet.empty.run ops
+      return obj [("classes", Json.arr (d.classes.map (fun c => Json.arr (c.map (fun n => jI (Int.ofNat n))).toArray)).toArray)]
   | "masters-ok" =>
       let ms ← (← getArr (← field j "masters")).mapM getStrs
       return obj [("ok", Json.bool (mastersOk ms))]
